@@ -346,10 +346,15 @@ def job_search(cfg):
         mesh.Rotate(float(np.degrees(np.arctan2(0.8, 0.6))), (0.3, 0.2, 0.0))
     if cfg.get("motion") == "S":
         mesh.Symmetry((0.3, 0.0, 0.0), (1.0, 0.0, 0.0))
+    if cfg.get("motion") == "Z":
+        # a plane mesh moved OUT of the plane z = 0 (translation along z, then a rotation about a skew axis): surface elements embedded in 3-D
+        mesh.Translate(0.0, 0.0, 0.75)
+        if cfg.get("skew"):
+            mesh.Rotate(float(np.degrees(np.arctan2(0.8, 0.6))), (0.3, 0.2, 0.0), (2.0, 3.0, 6.0))
     g = mesh.groupElem if not cfg.get("mixed") else mesh.Get_list_groupElem(mesh.dim)[0]
     dim, order = g.dim, g.order
     X = mesh.coord
-    key = f"{et} point location through the element search" + ({"R": " (rotated mesh)", "S": " (mirrored mesh)"}.get(cfg.get("motion"), "")) + (" (tapered, non-parallelogram elements)" if cfg.get("distorted") else "") + (" (finer mesh: candidate sets that are not contiguous ranges)" if cfg.get("fine") else "") + (" (mesh with two element groups, QUAD4 + TRI3)" if cfg.get("mixed") else "")
+    key = f"{et} point location through the element search" + ({"R": " (rotated mesh)", "S": " (mirrored mesh)", "Z": " (plane mesh moved out of the plane z = 0" + (", skew rotation" if cfg.get("skew") else "") + ")"}.get(cfg.get("motion"), "")) + (" (tapered, non-parallelogram elements)" if cfg.get("distorted") else "") + (" (finer mesh: candidate sets that are not contiguous ranges)" if cfg.get("fine") else "") + (" (mesh with two element groups, QUAD4 + TRI3)" if cfg.get("mixed") else "")
     tol_q = TOL if not (cfg.get("distorted") or cfg.get("mixed")) else Fraction(1, 10 ** 8)  # iterative inverse map: its own stopping tolerance
     res.functions |= {"Mesh.Evaluate_dofsValues_at_coordinates", "_GroupElem.Get_Mapping", "_GroupElem._Get_Mapping", "_GroupElem._Get_nearby_elements", "_GroupElem.Get_Elements_Nodes", "_GroupElem._Get_coord_Near"}
     if cfg.get("distorted") or cfg.get("mixed"):
@@ -556,6 +561,10 @@ def main():
         configs.append({"kind": "search", "elem": et, "distorted": True, "motion": "S"})
     for et in ["QUAD4"] + (["HEXA8", "QUAD8"] if tier == "thorough" else []):
         configs.append({"kind": "search", "elem": et, "distorted": True, "motion": "R"})
+    # ... and plane meshes moved out of the plane z = 0 (embedded surface elements; tapered quadrangles take the numerical inverse map there too)
+    for et in ["QUAD4", "TRI3"] + (["QUAD8", "QUAD9", "TRI6"] if tier == "thorough" else []):
+        configs.append({"kind": "search", "elem": et, "distorted": et.startswith("QUAD"), "motion": "Z"})
+    configs.append({"kind": "search", "elem": "QUAD4", "distorted": True, "motion": "Z", "skew": True})
     for et in ["TRI3", "TRI6", "TETRA4"]:
         configs.append({"kind": "locate", "elem": et, "moved": True})
     # elements whose first edge is not along x: their local frame (_Get_sysCoord_e) differs from the global one once the mesh leaves z = 0
